@@ -120,6 +120,27 @@ PROPS = {
         "logs silenced), return value STOP/CONTINUE/ASYNC_PAUSED as stated, "
         "next action runs iff CONTINUE.",
     },
+    "C07": {
+        "flavours": ["asan"],
+        "runs": {"quick": 3000, "thorough": 100000},
+        "rule": KILL_RULE + "; 0-3 base prekill hooks and 0-2 drop-in hook "
+        "units (scripted sim_hook, patterns with whole-component wildcards), "
+        "per-fire completion times around tick boundaries and the deadline "
+        "(0, 1 ms, interval-1ns, interval, interval+1ns, 2 intervals, 5 s, "
+        "30 s, never), prekill_hook_timeout in {0,1,5,30}, failing kills so "
+        "that stacked candidates fire further hooks, victims removed or "
+        "re-created at any tick of the wait; non-trivial = a hook fired and a "
+        "kill was attempted",
+        "level_text": "seeded exploration; oracle = history check over hook "
+        "fire/didFinish/destroy events interleaved with kill(2) events: "
+        "never two live invocations per kill action, fired hook = first "
+        "matching in priority order (drop-ins newest first, then base), no "
+        "fire after the window, first signal only after the invocation was "
+        "destroyed and either reported finished or the window closed, a "
+        "victim re-created during the wait is not killed, a matching hook is "
+        "fired whenever the window is open; C01's containment invariants stay "
+        "on.",
+    },
     "C02": {
         "flavours": ["asan"],
         "runs": {"quick": 4000, "thorough": 150000},
